@@ -41,7 +41,19 @@ impl<'a> BerDecoder<'a> for SnmpOid<'a> {
 
     // Implement X.690 pp 8.19: Encoding of an object identifier value
     fn decode(i: &'a [u8], h: &BerHeader) -> SnmpResult<Self> {
-        Ok(SnmpOid(Cow::Borrowed(&i[..h.length])))
+        let data = &i[..h.length];
+        // Each sub-identifier must not exceed 2^32-1
+        let mut acc = 0u64;
+        for c in data {
+            acc = (acc << 7) | (c & 0x7f) as u64;
+            if acc > u32::MAX as u64 {
+                return Err(SnmpError::InvalidData);
+            }
+            if c & 0x80 == 0 {
+                acc = 0;
+            }
+        }
+        Ok(SnmpOid(Cow::Borrowed(data)))
     }
 }
 
